@@ -754,6 +754,8 @@ def run(ck):
     ck.ob('DT-default', pdb.loc(gnn), ok, 'a written attribute is replaced by its default only when it is absent or None -- 0 and empty strings are written as they are', key='DT-default|get_not_none')
     from . import shared
     shared.truthy_zero(ck, [PDB, GRO, 'vermouth/truncating_formatter.py'])
+    # the GRO header is System.num_particles: the count of the molecules as they are now, not one remembered from an earlier call
+    shared.no_new_state(ck, ['vermouth/system.py'])
     shared.pure_writer(ck, pdb, wfn, [wfn.args.args[0].arg])
     shared.pure_writer(ck, gro, gw, [gw.args.args[0].arg])
     # GRO reader: the coordinate width is measured between decimal points *after* the four fixed 5-column fields (a "." in a name must not count)
